@@ -346,6 +346,20 @@ def judgeSeq (line : String) : String :=
           | w :: _, _ => s!"SPEC dbatch {w}"
           | [], w :: _ => s!"DIFF dbatch {w}"
           | [], [] => s!"OK dbatch"
+  -- round h: a value whose DYNAMIC Go type is a near miss of a supported one (pointer to it, typed nil pointer, named
+  -- struct embedding it, member of a collection): not one of the six supported types, so the error clause applies
+  -- whatever the value on the line is (`g` is only what the near miss was built from)
+  | "uns" :: how :: kind :: gt =>
+    match Proto.pGeom 64 gt with
+    | none => "BAD parse"
+    | some (g, _) =>
+      if !(["tog", "enc"].contains how && ["ptr", "nilptr", "named", "gcptr", "gcnamed", "pp"].contains kind) || Rfc.isNil g
+      then "BAD parse" else
+      let cls := s!"uns-{how}-{kind}-{geomClass g}"
+      if rhs.head? == some "panic" then s!"SPEC {cls} unsupported-type-not-reported-as-error {rhsS}"
+      else if rhs.head? == some "ok" then s!"SPEC {cls} encoder-accepted-unsupported-type {rhsS}"
+      else if rhs == ["err", "unsupported"] then s!"OK {cls}"
+      else s!"DIFF {cls} model=err unsupported impl={rhsS}"
   | "emsg" :: gt =>
     match Proto.pGeom 64 gt with
     | none => "BAD parse"
